@@ -142,6 +142,38 @@ type Two struct {
 	G ext2.Pt
 }
 
+// UOrd declares a Compare method that is a total order over all of its fields
+// but not the field-wise one (priority descending, then name ascending).
+type UOrd struct {
+	N string
+	P int
+}
+
+func (x *UOrd) Compare(y *UOrd) int {
+	if x == nil || y == nil {
+		if x == nil && y == nil {
+			return 0
+		}
+		if x == nil {
+			return -1
+		}
+		return 1
+	}
+	if x.P != y.P {
+		if x.P > y.P {
+			return -1
+		}
+		return 1
+	}
+	if x.N < y.N {
+		return -1
+	}
+	if x.N > y.N {
+		return 1
+	}
+	return 0
+}
+
 // Anon has anonymous struct fields (Equal, Hash and GoString take them; Compare
 // and DeepCopy refuse them with a diagnostic).
 type Anon struct {
